@@ -9,6 +9,8 @@ import os
 import re
 import time
 
+import common
+
 from common import (Inconclusive, Scratch, Verdict, build_test_binary, env_seed, log,
                     run_test_binary, run_tlc, save_replay, write_evidence, SPEC)
 
@@ -177,7 +179,7 @@ def tv_run(prop, tier, replay_path, *, harness_dirs, pkg, test, trace_module, ta
             cov.update(extra_cov(stats_all))
         if merge_into_existing:
             # second engine of a property whose first engine already wrote the evidence file
-            p = os.path.join(os.path.dirname(SPEC), "evidence", prop + ".json")
+            p = os.path.join(common.OUTDIR, "evidence", prop + ".json")
             with open(p) as fh:
                 ev = json.load(fh)
             c0 = ev["coverage"]
